@@ -20,7 +20,7 @@ operations; CASE, CAST to integer types, IN lists; GROUP BY with count/sum/min/m
                           (`saKind_sound`, all strings) or raises, and `get_string` then returns the
                           original statement (`saRender`).
                           `C06_regress_*` pin the former defects (now correct);
-                          `C06_witness_5` (window NULLS) is still open.
+                          `C06_witness_7` (`||` with a `*` operand) is still open.
 * `C06_dml_partial`    : INSERT … VALUES / UPDATE / DELETE leave the same table contents.
 * `C06_grouping`       : (T6.2) for every operator tree of the fragment — any size — accepted by
                           `saOk`, the text SQLAlchemy prints is regrouped by sqlite's precedence to
@@ -112,24 +112,18 @@ theorem C06_regress_4 :
     saNormE (.not (.cmp .is (.col 0) .null)) = .cmp .isNot (.col 0) .null ∧
     eval env0 (fun _ => none) (saNormE (.not (.cmp .is (.col 0) .null))) = some 0 := by decide
 
-/-- still open (KF-C06-12): window functions drop `NULLS FIRST/LAST` of their ORDER BY -/
-theorem C06_witness_5 :
+/-- (was KF-C06-12, fixed c20d32e) window functions keep `NULLS FIRST/LAST` of their ORDER BY -/
+theorem C06_regress_5 :
     keyLe env0 ⟨.col 0, "ASC", "NULLS LAST"⟩ none (some 0) = false ∧
-    keyLe env0 (saWinKey ⟨.col 0, "ASC", "NULLS LAST"⟩) none (some 0) = true := by decide
+    keyLe env0 (saWinKey ⟨.col 0, "ASC", "NULLS LAST"⟩) none (some 0) = false := by decide
 
 /-- (was KF-C06-8, fixed d11bd89) the alias of a BETWEEN target is kept -/
 theorem C06_regress_6 :
     (saTarget ⟨.btw false (.col 0) (.int 0) (.int 1), some "k"⟩).alias = some "k" := by decide
 
-/-- window ORDER BY keys without an explicit NULLS position keep their meaning -/
-theorem C06_window_key (env : Env) (k : OrderKey) (h1 : k.nulls ≠ "NULLS FIRST")
-    (h2 : k.nulls ≠ "NULLS LAST") : keyLe env (saWinKey k) = keyLe env k := by
-  funext a b
-  have hd : keyDesc (saWinKey k) = keyDesc k := by
-    simp only [keyDesc, saWinKey]
-    by_cases h : k.dir = "DESC" <;> simp [h]
-  simp only [keyLe, keyNullsFirst, hd]
-  simp [saWinKey, h1, h2]
+/-- window ORDER BY keys keep direction and NULLS position (no hypothesis since c20d32e) -/
+theorem C06_window_key (env : Env) (k : OrderKey) : keyLe env (saWinKey k) = keyLe env k :=
+  keyLe_saKey env k
 
 /-! ### non-vacuity of the hypotheses -/
 
@@ -150,14 +144,17 @@ example : okQ q1 = true := by decide +kernel
 example : okQ (.setop .union true q1 q1) = true := by decide +kernel
 example : raisesQ q1 = false ∧ evalQuery env0 dbL (saRender q1) = [[some 1, some 1]] := by decide +kernel
 /-- `SELECT a, count(*), sum(CASE WHEN NOT (a IN (1, 2)) THEN 0 ELSE CAST(a AS INT) END) FROM t
-     WHERE NOT (a IS NULL) GROUP BY a HAVING count(*) >= 1` -/
+     WHERE NOT (a IS NULL) GROUP BY a HAVING count(*) >= 1 ORDER BY a DESC NULLS LAST LIMIT 3` -/
 private def q2 : Query := .gselect
   { targets := [.plain (.col 0), .countStar,
       .agg .sum (.ite (.not (.inl false (.col 0) (.tcons (.int 1) (.tcons (.int 2) .tnil)))) (.int 0) (.cast (.col 0)))]
     from_ := .table 0
     where_ := some (.not (.cmp .is (.col 0) .null))
     groupBy := [.col 0]
-    having := some (.countStar, .ge, 1) }
+    having := some (.countStar, .ge, 1)
+    order := [⟨.col 0, "DESC", "NULLS LAST"⟩]
+    limit := some 3
+    offset := none }
 
 example : okQ q2 = true ∧ raisesQ q2 = false := by decide +kernel
 /-- `NOT (a IN (1))` is rendered `a NOT IN (1)` -/
@@ -170,10 +167,9 @@ example : okStmt (.update 0 [(0, .ar .add (.col 0) (.int 1))] (some (.not onEq))
 
 /-! ## T6.2 — operand grouping -/
 
-/-- operators of the method table that are outside the grouping theorem: `/` (printed as
-`a / (b + 0.0)`: true division, a known finding of its own), `in` / `not in` (list operand), and
-`||` (see `C06_witness_7`) -/
-def outside : List String := ["/", "in", "not in", "||"]
+/-- operators of the method table that are outside the grouping theorem: `in` / `not in` (list
+operand) and `||` (see `C06_witness_7`).  `/` is inside since 0c1e34d (printed as written). -/
+def outside : List String := ["in", "not in", "||"]
 
 def binsOf (skip : List String) : List (Nat × String) :=
   (SaPrec.bins.filter fun r => !skip.contains r.2.1).map fun r => (r.1, r.2.2.1)
@@ -189,6 +185,10 @@ def saPolicy : Policy where
   rkBtw := SaPrec.rkBtw
   natural o := ((SaPrec.bins.find? fun r => r.1 == o).map (·.2.2.2.2.1)).getD false
   preAll o := ((SaPrec.pres.find? fun r => r.1 == o).map (·.2.2.2.2)).getD false
+  extra o := match ((SaPrec.bins.find? fun r => r.1 == o).map (·.2.2.2.2.2.2)).getD (0, 0) with
+    | (0, _) => none
+    | (k, 0) => some (k, none)
+    | (k, x) => some (k, some x)
 
 /-- sqlite's precedence over the same operator numbering -/
 def sqliteP (skip : List String) : OPM.Table :=
@@ -244,22 +244,36 @@ theorem C06_regroup_harmless (a b c : Val) :
     generalize truth c = tc
     rcases ta with _ | _ | _ <;> rcases tb with _ | _ | _ <;> rcases tc with _ | _ | _ <;> rfl
 
-/-- what `saOk` excludes (2): bounds of BETWEEN are never grouped —
-`c0 BETWEEN (c1 OR c2) AND c3` is printed `c0 BETWEEN c1 OR c2 AND c3` and regroups wrongly -/
-theorem C06_witness_9 :
-    let e : OPM.Expr := .btw (.atom 0) (.bin 21 (.atom 1) (.atom 2)) (.atom 3)
-    saOk saPolicy e = false ∧
-    parse (sqliteP outside) (print (sqliteP outside) (saParens saPolicy e)) [] none ≠
+/-- (was KF-C06-10, fixed ec71c9a) bounds of BETWEEN are grouped:
+`c0 BETWEEN (c1 OR c2) AND (c3 = c4)` keeps its parentheses and regroups to itself -/
+theorem C06_regress_9 :
+    let e : OPM.Expr := .btw (.atom 0) (.bin 21 (.atom 1) (.atom 2)) (.bin 10 (.atom 3) (.atom 4))
+    saOk saPolicy e = true ∧
+    saParens saPolicy e =
+      .btw (.atom 0) (.paren (.bin 21 (.atom 1) (.atom 2))) (.paren (.bin 10 (.atom 3) (.atom 4))) ∧
+    parse (sqliteP outside) (print (sqliteP outside) (saParens saPolicy e)) [] none =
       some (saParens saPolicy e) := by decide
 
-/-- with `||` in the fragment the obligation fails: SQLAlchemy ranks `concat_op` with the
-comparisons (5), sqlite above `* / %`; `c0 || (c1 + c2)` is printed `c0 || c1 + c2` = `(c0 || c1) + c2` -/
+/-- (was KF-C06-5, fixed 0c1e34d) `/` is printed as written and groups like `*`:
+`c0 / (c1 * c2)` and `(c0 / c1) / c2` -/
+theorem C06_regress_5b :
+    saParens saPolicy (.bin 6 (.atom 0) (.bin 3 (.atom 1) (.atom 2))) =
+      .bin 6 (.atom 0) (.paren (.bin 3 (.atom 1) (.atom 2))) ∧
+    saParens saPolicy (.bin 6 (.bin 6 (.atom 0) (.atom 1)) (.atom 2)) =
+      .bin 6 (.paren (.bin 6 (.atom 0) (.atom 1))) (.atom 2) := by decide
+
+/-- `||` (KF-C06-11, narrowed): the renderer groups its operands against `mul` (75aca2f), which
+exempts an operand built with `*` itself: `c0 || (c1 + c2)` keeps its parentheses, but
+`c0 || (c1 * c2)` is printed `c0 || c1 * c2`, which sqlite reads `(c0 || c1) * c2`; with `||` in the
+fragment the obligation fails -/
 theorem C06_witness_7 :
-    compatible saPolicy (sqliteP ["/", "in", "not in"]) (frag ["/", "in", "not in"]) = false ∧
-    (let e : OPM.Expr := .bin 19 (.atom 0) (.bin 4 (.atom 1) (.atom 2))
+    compatible saPolicy (sqliteP ["in", "not in"]) (frag ["in", "not in"]) = false ∧
+    saParens saPolicy (.bin 19 (.atom 0) (.bin 4 (.atom 1) (.atom 2))) =
+      .bin 19 (.atom 0) (.paren (.bin 4 (.atom 1) (.atom 2))) ∧
+    (let e : OPM.Expr := .bin 19 (.atom 0) (.bin 3 (.atom 1) (.atom 2))
      saOk saPolicy e = true ∧
-     parse (sqliteP ["/", "in", "not in"]) (print (sqliteP ["/", "in", "not in"]) (saParens saPolicy e)) [] none =
-       some (.bin 4 (.bin 19 (.atom 0) (.atom 1)) (.atom 2))) := by decide +kernel
+     parse (sqliteP ["in", "not in"]) (print (sqliteP ["in", "not in"]) (saParens saPolicy e)) [] none =
+       some (.bin 3 (.bin 19 (.atom 0) (.atom 1)) (.atom 2))) := by decide +kernel
 
 /-- non-vacuity: `NOT (c0 + c1 * c2 = c3 AND c4 BETWEEN c5 + c6 AND - c7) OR c8 <> c9`-like tree -/
 private def g1 : OPM.Expr :=
@@ -295,7 +309,7 @@ theorem phi6_flip :
     (SaPrec.bins.all fun r =>
       match cmpOfKey r.2.1 with
       | none => true
-      | some c => cmpOfKey (keyOfId r.2.2.2.2.2) == some c.saNeg) = true ∧
+      | some c => cmpOfKey (keyOfId r.2.2.2.2.2.1) == some c.saNeg) = true ∧
     SaPrec.notBtwFn = "not_between_op" := by decide
 
 /-- the `join_type` strings the grammars can produce are all classified: given their SQL kind, or one
